@@ -54,6 +54,7 @@ type tblCase struct {
 	Kind     string      `json:"kind"` // gpt | mbr
 	DiskSize int64       `json:"disk_size"`
 	LSS      int         `json:"lss"`
+	PSS      int         `json:"pss,omitempty"` // physical sector size; 0 = same as logical
 	PMBR     bool        `json:"pmbr"`
 	DiskGUID string      `json:"disk_guid"`
 	Over     string      `json:"over"` // "", "gpt", "mbr", "noise": what is on the disk before
@@ -98,7 +99,11 @@ func geoRange(geo string, first, last uint64) (s, e uint64) {
 }
 
 func buildGPT(c *tblCase) *gpt.Table {
-	t := &gpt.Table{LogicalSectorSize: c.LSS, PhysicalSectorSize: c.LSS, ProtectiveMBR: c.PMBR, GUID: c.DiskGUID}
+	pss := c.PSS
+	if pss == 0 {
+		pss = c.LSS
+	}
+	t := &gpt.Table{LogicalSectorSize: c.LSS, PhysicalSectorSize: pss, ProtectiveMBR: c.PMBR, GUID: c.DiskGUID}
 	first, last := gptGeometry(c.DiskSize, c.LSS)
 	for _, p := range c.GPT {
 		s, e := geoRange(p.Geo, first, last)
@@ -426,6 +431,10 @@ func gptDisks(quick bool) (out []tblCase) {
 					continue
 				}
 				out = append(out, tblCase{Kind: "gpt", DiskSize: sz, LSS: lss, PMBR: pm, DiskGUID: fixedDiskGUID})
+				if pm && sz == 10<<20 {
+					// physical sector size different from the logical one (512e / 4Kn-on-512 devices)
+					out = append(out, tblCase{Kind: "gpt", DiskSize: sz, LSS: lss, PSS: 4096 * 512 / lss, PMBR: pm, DiskGUID: fixedDiskGUID})
+				}
 			}
 		}
 	}
